@@ -1,19 +1,40 @@
-"""Scripted transports for C04 (and the end-to-end part of C09): the three native
-interfaces are driven through their public send_and_receive_raw with the socket
-(Rmcp), os.read / os.write / select.select (IpmbDev), a stub pyaardvark (Aardvark) and
-time.time / time.sleep replaced from outside.  No real socket, device, thread or sleep.
+"""Scripted transports for C04 (and the end-to-end part of C09): the three native interfaces are
+driven through their PUBLIC entry points (constructor, open(), send_and_receive_raw,
+is_ipmc_accessible) with everything below them substituted AT THE ORIGIN, so it does not matter in
+which module of the library the code lives:
+  * time.sleep / time.time / time.monotonic of the real `time` module -> the scripted clock,
+  * select.select / select.poll, os.open / os.read / os.write / os.close of the real modules -> the
+    scripted ipmb-dev device, for its (fake) path / descriptor only; everything else is delegated,
+  * sys.modules['pyaardvark'] -> a stub whose open() returns the scripted adapter,
+  * socket.socket (while Rmcp.open() runs) -> the scripted UDP socket,
+  * names in loaded pyipmi.* modules that are bound to the real functions (`from time import sleep`)
+    or to a missing / real pyaardvark are re-bound too.
+The substitutes are dispatchers: they act only in the thread that is inside `driven(rig)` and
+delegate to the real function otherwise; `uninstall()` puts the originals back.  Every driven call
+runs under a wall-clock guard (GUARD_S): a real sleep or blocking call that escaped the substitution
+ends in HarnessTimeout - reported as a limitation of the harness, never a hang.
+No private name of the library is needed: `_q` (RMCP receive queue) is an optional observation.
 
-An event script is a list of ('F', bytes) | ('N',) | ('E',):
-  frame received | nothing within the time-out | OS error on the receive side.
+An event script is a list of ('F', bytes) | ('N',) | ('E',) | ['L', data]:
+  frame received | nothing within the time-out | OS error on the receive side | reply to the frame written last.
 An exhausted script behaves like ('N',) for ever.
 """
+import os
+import select
+import signal
 import socket
 import sys
+import threading
+import time
 import types
 
-# ---------------------------------------------------------------------------
-# scripted clock (shared by ipmbdev / aardvark modules: they call time.time / time.sleep)
-# ---------------------------------------------------------------------------
+GUARD_S = 20.0
+FAKE_FD = 1000077
+FAKE_PORT = '/dev/ipmb-verif'
+
+
+class HarnessTimeout(BaseException):
+    """a driven call exceeded GUARD_S of wall-clock time (not an Exception: nothing swallows it)"""
 
 
 class Clock:
@@ -27,19 +48,6 @@ class Clock:
     def sleep(self, t):
         self.sleeps.append(t)
         self.now += t
-
-
-class FakeTimeModule:
-    """stands in for the `time` module inside one interface module"""
-
-    def __init__(self, clock):
-        self._c = clock
-
-    def time(self):
-        return self._c.time()
-
-    def sleep(self, t):
-        return self._c.sleep(t)
 
 
 class Script:
@@ -93,8 +101,8 @@ def reply_to_wire(frame, data):
 
 
 # ---------------------------------------------------------------------------
-# RMCP: scripted UDP socket.  Frames are carried in the constant RMCP + IPMI v1.5
-# "no session" wrapping (IpmiMsg pack/unpack are C05's subject and transparent here).
+# RMCP datagrams: frames are carried in the RMCP + IPMI v1.5 wrapping (IpmiMsg pack/unpack are C05's
+# subject and transparent here); replies use the constant "no session" header
 # ---------------------------------------------------------------------------
 RMCP_HDR = bytes([0x06, 0x00, 0xff, 0x07])
 SESSION_NONE = bytes([0x00]) + bytes(8)
@@ -106,25 +114,61 @@ def rmcp_wrap(frame):
 
 def rmcp_unwrap(datagram):
     datagram = bytes(datagram)
-    assert datagram[:4] == RMCP_HDR and datagram[4:13] == SESSION_NONE, datagram.hex()
-    assert datagram[13] == len(datagram) - 14, datagram.hex()
-    return datagram[14:]
+    assert datagram[:2] == RMCP_HDR[:2] and datagram[3] == 7, datagram.hex()
+    body = datagram[4:]
+    hl = 10 if body[0] == 0 else 26
+    assert body[hl - 1] == len(body) - hl, datagram.hex()
+    return body[hl:]
+
+
+class Rig:
+    """everything scripted below one interface object"""
+
+    def __init__(self, kind, script):
+        self.kind, self.script = kind, script
+        self.clock = Clock()
+        self.sent = []
+        self.dev = FakeAardvarkDev(self) if kind == 'aardvark' else None
+        self.sock = FakeSocket(self) if kind == 'rmcp' else None
+
+    # ---- ipmb-dev character device
+    def dev_write(self, data):
+        data = bytes(data)
+        assert data[0] == len(data) - 1, data.hex()
+        self.sent.append(data[1:])
+        return len(data)
+
+    def dev_read(self, n):
+        e = self.script.next()
+        if e[0] == 'F':
+            return bytes([len(e[1])]) + bytes(e[1])
+        if e[0] == 'E':
+            raise OSError(5, 'scripted I/O error')
+        raise AssertionError('read without a ready descriptor')
+
+    def dev_ready(self, timeout):
+        """select / poll on the fake descriptor: ready unless the next event is 'nothing'"""
+        e = self.script.peek()
+        if e[0] == 'N':
+            self.script.next()
+            self.clock.now += timeout or 0
+            return False
+        return True
 
 
 class FakeSocket:
-    def __init__(self, script):
-        self.script = script
-        self.sent = []
+    def __init__(self, rig):
+        self.rig = rig
         self.timeout = None
 
     def settimeout(self, t):
         self.timeout = t
 
     def sendto(self, data, addr):
-        self.sent.append(rmcp_unwrap(data))
+        self.rig.sent.append(rmcp_unwrap(data))
 
     def recvfrom(self, n):
-        e = self.script.next()
+        e = self.rig.script.next()
         if e[0] == 'F':
             return rmcp_wrap(e[1]), ('192.0.2.1', 623)
         if e[0] == 'N':
@@ -135,91 +179,9 @@ class FakeSocket:
         pass
 
 
-def make_rmcp(script, max_retries=3, next_seq=0, quirks=None, slave=0x81):
-    """An Rmcp object as establish_session leaves it, minus the network: no session
-    object (v1.5 'none'), scripted socket, no keep-alive thread."""
-    import pyipmi.interfaces.rmcp as R
-    intf = R.Rmcp(slave_address=slave, max_retries=max_retries, keep_alive_interval=0,
-                  quirks_cfg=dict(quirks or {}))
-    intf._sock = FakeSocket(script)       # instead of open(): no socket.socket() call
-    intf._session = None
-    intf.host, intf.port = '192.0.2.1', 623
-    intf.next_sequence_number = next_seq
-    assert getattr(intf, '_stop_keep_alive', None) is None
-    return intf
-
-
-def rmcp_queue(intf):
-    return [bytes(x) for x in list(intf._q.queue)]
-
-
-# ---------------------------------------------------------------------------
-# ipmb-dev: os.read / os.write / select.select and time replaced in the module namespace
-# ---------------------------------------------------------------------------
-class FakeOs:
-    def __init__(self, script, real_os):
-        self.script = script
-        self.sent = []
-        self._real = real_os
-        self.O_RDWR = real_os.O_RDWR
-
-    def open(self, *a):
-        return 77
-
-    def close(self, fd):
-        pass
-
-    def write(self, fd, data):
-        data = bytes(data)
-        assert fd == 77 and data[0] == len(data) - 1, data.hex()
-        self.sent.append(data[1:])
-        return len(data)
-
-    def read(self, fd, n):
-        e = self.script.next()
-        if e[0] == 'F':
-            return bytes([len(e[1])]) + bytes(e[1])
-        if e[0] == 'E':
-            raise OSError(5, 'scripted I/O error')
-        raise AssertionError('read without a ready descriptor')
-
-
-class FakeSelect:
-    def __init__(self, script, clock):
-        self.script, self.clock = script, clock
-
-    def select(self, r, w, x, timeout=None):
-        e = self.script.peek()
-        if e[0] == 'N':
-            self.script.next()
-            self.clock.now += timeout or 0
-            return [], [], []
-        return list(r), [], []
-
-
-def make_ipmbdev(script, max_retries=3, next_seq=0, slave=0x20):
-    import os as real_os
-    import pyipmi.interfaces.ipmbdev as M
-    clock = Clock()
-    fos = FakeOs(script, real_os)
-    M.os = fos
-    M.select = FakeSelect(script, clock)
-    M.time = FakeTimeModule(clock)
-    intf = M.IpmbDev(slave_address=slave)
-    intf.open()
-    intf.max_retries = max_retries
-    intf.next_sequence_number = next_seq
-    intf._fake_os, intf._clock = fos, clock
-    return intf
-
-
-# ---------------------------------------------------------------------------
-# Aardvark: stub pyaardvark module
-# ---------------------------------------------------------------------------
 class FakeAardvarkDev:
-    def __init__(self, script, clock):
-        self.script, self.clock = script, clock
-        self.sent = []
+    def __init__(self, rig):
+        self.rig = rig
         self.i2c_bitrate = None
         self.i2c_pullups = None
         self.target_power = None
@@ -231,18 +193,13 @@ class FakeAardvarkDev:
         pass
 
     def i2c_master_write(self, addr, data):
-        self.sent.append(bytes([(addr << 1) & 0xff]) + bytes(data))
+        self.rig.sent.append(bytes([(addr << 1) & 0xff]) + bytes(data))
 
     def poll(self, timeout_ms):
-        e = self.script.peek()
-        if e[0] == 'N':
-            self.script.next()
-            self.clock.now += timeout_ms / 1000.0
-            return []
-        return [1]
+        return [1] if self.rig.dev_ready(timeout_ms / 1000.0) else []
 
     def i2c_slave_read(self):
-        e = self.script.next()
+        e = self.rig.script.next()
         if e[0] == 'E':
             raise IOError(5, 'scripted I/O error')
         assert e[0] == 'F'
@@ -252,46 +209,286 @@ class FakeAardvarkDev:
         return f[0] >> 1, f[1:]
 
 
+class _FakePoll:
+    """select.poll() object: the fake descriptor is served from the script, others by a real poll"""
+
+    def __init__(self, real):
+        self._real, self._fake = real, False
+
+    def register(self, fd, *a):
+        if _fd(fd) == FAKE_FD:
+            self._fake = True
+        else:
+            self._real.register(fd, *a)
+
+    def modify(self, fd, *a):
+        if _fd(fd) != FAKE_FD:
+            self._real.modify(fd, *a)
+
+    def unregister(self, fd):
+        if _fd(fd) == FAKE_FD:
+            self._fake = False
+        else:
+            self._real.unregister(fd)
+
+    def poll(self, timeout=None):
+        rig = _cur()
+        if self._fake and rig is not None:
+            return [(FAKE_FD, select.POLLIN)] if rig.dev_ready((timeout or 0) / 1000.0) else []
+        return self._real.poll(timeout)
+
+
+def _fd(x):
+    return x if isinstance(x, int) else getattr(x, 'fileno', lambda: -1)()
+
+
+# ---------------------------------------------------------------------------
+# substitution at the origin
+# ---------------------------------------------------------------------------
+_tls = threading.local()
+_REAL = {}
+_DISPATCH = {}
+_STATE = {'installed': False, 'nmodules': -1, 'bound': [], 'saved_pyaardvark': None}
+
+
+def _cur():
+    return getattr(_tls, 'rig', None)
+
+
+def _mk_dispatchers():
+    R = _REAL
+
+    def d_sleep(t):
+        rig = _cur()
+        return R['time.sleep'](t) if rig is None else rig.clock.sleep(t)
+
+    def d_time():
+        rig = _cur()
+        return R['time.time']() if rig is None else rig.clock.time()
+
+    def d_monotonic():
+        rig = _cur()
+        return R['time.monotonic']() if rig is None else rig.clock.time()
+
+    def d_select(r, w, x, timeout=None):
+        rig = _cur()
+        if rig is not None and any(_fd(f) == FAKE_FD for f in r):
+            return ([f for f in r if _fd(f) == FAKE_FD], [], []) if rig.dev_ready(timeout) else ([], [], [])
+        return R['select.select'](r, w, x, timeout) if timeout is not None else R['select.select'](r, w, x)
+
+    def d_poll(*a):
+        real = R['select.poll'](*a)
+        return real if _cur() is None else _FakePoll(real)
+
+    def d_open(path, *a, **k):
+        rig = _cur()
+        if rig is not None and path == FAKE_PORT:
+            return FAKE_FD
+        return R['os.open'](path, *a, **k)
+
+    def d_read(fd, n):
+        rig = _cur()
+        return rig.dev_read(n) if (rig is not None and fd == FAKE_FD) else R['os.read'](fd, n)
+
+    def d_write(fd, data):
+        rig = _cur()
+        return rig.dev_write(data) if (rig is not None and fd == FAKE_FD) else R['os.write'](fd, data)
+
+    def d_close(fd):
+        if fd == FAKE_FD:
+            return None
+        return R['os.close'](fd)
+
+    return {'time.sleep': d_sleep, 'time.time': d_time, 'time.monotonic': d_monotonic, 'select.select': d_select,
+            'select.poll': d_poll, 'os.open': d_open, 'os.read': d_read, 'os.write': d_write, 'os.close': d_close}
+
+
+_MODS = {'time': time, 'select': select, 'os': os}
+
+
 def _stub_pyaardvark():
-    if 'pyaardvark' not in sys.modules or not getattr(sys.modules['pyaardvark'], '_verif_stub', False):
-        m = types.ModuleType('pyaardvark')
-        m._verif_stub = True
-        m.open = lambda port=0, serial_number=None: m._dev
-        m._dev = None
-        sys.modules['pyaardvark'] = m
-    return sys.modules['pyaardvark']
+    m = types.ModuleType('pyaardvark')
+    m._verif_stub = True
+    m.open = lambda *a, **k: _cur().dev
+    return m
 
 
-def make_aardvark(script, max_retries=3, next_seq=0, slave=0x20):
-    stub = _stub_pyaardvark()
-    import pyipmi.interfaces.aardvark as M
-    M.pyaardvark = stub
-    clock = Clock()
-    M.time = FakeTimeModule(clock)
-    stub._dev = FakeAardvarkDev(script, clock)
-    intf = M.Aardvark(slave_address=slave)
-    intf.open()
+def install():
+    if _STATE['installed']:
+        return
+    for key in ('time.sleep', 'time.time', 'time.monotonic', 'select.select', 'select.poll',
+                'os.open', 'os.read', 'os.write', 'os.close'):
+        mod, name = key.split('.')
+        if hasattr(_MODS[mod], name):
+            _REAL[key] = getattr(_MODS[mod], name)
+    _DISPATCH.update(_mk_dispatchers())
+    for key in _REAL:
+        mod, name = key.split('.')
+        setattr(_MODS[mod], name, _DISPATCH[key])
+    _STATE['saved_pyaardvark'] = sys.modules.get('pyaardvark')
+    _STATE['stub'] = _stub_pyaardvark()
+    sys.modules['pyaardvark'] = _STATE['stub']
+    _STATE['installed'] = True
+    _STATE['nmodules'] = -1
+
+
+def _rebind():
+    """names in loaded pyipmi.* modules bound to the real functions (from time import sleep ...) or to
+    pyaardvark (None when the import failed) follow the substitution; cached until a module is imported"""
+    if _STATE['nmodules'] == len(sys.modules):
+        return
+    by_id = {id(v): _DISPATCH[k] for k, v in _REAL.items()}
+    for name, mod in list(sys.modules.items()):
+        if not (name == 'pyipmi' or name.startswith('pyipmi.')) or mod is None:
+            continue
+        for attr, val in list(vars(mod).items()):
+            if id(val) in by_id and callable(val):
+                _STATE['bound'].append((mod, attr, val))
+                setattr(mod, attr, by_id[id(val)])
+            elif attr == 'pyaardvark' and val is not _STATE['stub']:
+                _STATE['bound'].append((mod, attr, val))
+                setattr(mod, attr, _STATE['stub'])
+    _STATE['nmodules'] = len(sys.modules)
+
+
+def uninstall():
+    if not _STATE['installed']:
+        return
+    for key, real in _REAL.items():
+        mod, name = key.split('.')
+        setattr(_MODS[mod], name, real)
+    for mod, attr, val in reversed(_STATE['bound']):
+        setattr(mod, attr, val)
+    _STATE['bound'] = []
+    if _STATE['saved_pyaardvark'] is None:
+        sys.modules.pop('pyaardvark', None)
+    else:
+        sys.modules['pyaardvark'] = _STATE['saved_pyaardvark']
+    _REAL.clear()
+    _STATE['installed'] = False
+    if _STATE.get('alarm_pid') == os.getpid() and threading.current_thread() is threading.main_thread():
+        signal.setitimer(signal.ITIMER_REAL, 0)
+        signal.signal(signal.SIGALRM, _STATE.get('old_alarm') or signal.SIG_DFL)
+        _STATE['alarm_pid'] = None
+
+
+def _on_alarm(signum, frame):
+    raise HarnessTimeout('driven call exceeded %.0f s of wall-clock time' % GUARD_S)
+
+
+class driven:
+    """with driven(rig): ... - the calling thread sees the scripted clock / device / adapter; wall-clock guard"""
+
+    def __init__(self, rig):
+        self.rig = rig
+
+    def __enter__(self):
+        install()
+        _rebind()
+        self.prev = _cur()
+        _tls.rig = self.rig
+        self.guard = self.prev is None and threading.current_thread() is threading.main_thread()
+        if self.guard:
+            if _STATE.get('alarm_pid') != os.getpid():       # once per process (the handler stays until uninstall)
+                _STATE['old_alarm'] = signal.signal(signal.SIGALRM, _on_alarm)
+                _STATE['alarm_pid'] = os.getpid()
+            signal.setitimer(signal.ITIMER_REAL, GUARD_S)
+        return self.rig
+
+    def __exit__(self, *a):
+        if self.guard:
+            signal.setitimer(signal.ITIMER_REAL, 0)
+        _tls.rig = self.prev
+        return False
+
+
+def rig_of(intf):
+    return intf.verif_rig
+
+
+def _finish(intf, rig, max_retries, next_seq):
     intf.max_retries = max_retries
     intf.next_sequence_number = next_seq
-    intf._clock = clock
+    intf.verif_rig = rig
+    rig.script.resolver = None
     return intf
 
 
+def make_rmcp(script, max_retries=3, next_seq=0, quirks=None, slave=0x81):
+    """An Rmcp object that was opened but never established a session (v1.5 "none": the state a fresh
+    object is in), behind the scripted socket: the socket factory is substituted while open() runs.
+    No keep-alive thread exists before establish_session."""
+    import pyipmi.interfaces.rmcp as R
+    rig = Rig('rmcp', script)
+    with driven(rig):
+        intf = R.Rmcp(slave_address=slave, max_retries=max_retries, keep_alive_interval=0,
+                      quirks_cfg=dict(quirks or {}))
+        real = socket.socket
+        if _STATE.get('sockscan') != len(sys.modules):      # names bound by `from socket import socket`
+            _STATE['sockbound'] = [(m, a) for n, m in list(sys.modules.items())
+                                   if n.startswith('pyipmi') and m is not None
+                                   for a, v in list(vars(m).items()) if v is real]
+            _STATE['sockscan'] = len(sys.modules)
+        bound = _STATE['sockbound']
+        factory = lambda *a, **k: rig.sock      # noqa
+        socket.socket = factory
+        for m, a in bound:
+            setattr(m, a, factory)
+        try:
+            intf.open()
+        finally:
+            socket.socket = real
+            for m, a in bound:
+                setattr(m, a, real)
+    intf.host, intf.port = '192.0.2.1', 623
+    return _finish(intf, rig, max_retries, next_seq)
+
+
+def rmcp_queue(intf):
+    """the RMCP receive queue, if the interface (still) has one under that name - optional observation"""
+    q = getattr(intf, '_q', None)
+    try:
+        return [bytes(x) for x in list(q.queue)] if q is not None else []
+    except Exception:  # noqa
+        return []
+
+
+def rmcp_prefill(intf, frames):
+    """put frames on the receive queue (exercises the get path of the model); False if there is no queue"""
+    q = getattr(intf, '_q', None)
+    if q is None or not hasattr(q, 'put'):
+        return False
+    for f in frames:
+        q.put(f)
+    return True
+
+
+def make_ipmbdev(script, max_retries=3, next_seq=0, slave=0x20):
+    import pyipmi.interfaces.ipmbdev as M
+    rig = Rig('ipmbdev', script)
+    with driven(rig):
+        intf = M.IpmbDev(slave_address=slave, port=FAKE_PORT)
+        intf.open()
+    return _finish(intf, rig, max_retries, next_seq)
+
+
+def make_aardvark(script, max_retries=3, next_seq=0, slave=0x20):
+    install()
+    _rebind()
+    import pyipmi.interfaces.aardvark as M
+    rig = Rig('aardvark', script)
+    with driven(rig):
+        intf = M.Aardvark(slave_address=slave)
+        intf.open()
+    return _finish(intf, rig, max_retries, next_seq)
+
+
 def sent_of(kind, intf):
-    if kind == 'rmcp':
-        return list(intf._sock.sent)
-    if kind == 'ipmbdev':
-        return list(intf._fake_os.sent)
-    return list(intf._dev.sent)
+    return list(intf.verif_rig.sent)
 
 
 def clear_sent(kind, intf):
-    if kind == 'rmcp':
-        intf._sock.sent.clear()
-    elif kind == 'ipmbdev':
-        intf._fake_os.sent.clear()
-    else:
-        intf._dev.sent.clear()
+    intf.verif_rig.sent.clear()
 
 
 MAKERS = {'rmcp': make_rmcp, 'ipmbdev': make_ipmbdev, 'aardvark': make_aardvark}
@@ -316,7 +513,8 @@ def probe(intf, rs_sa, targets=None):
             targets[key] = make_target(rs_sa, None)
         t = targets[key]
     try:
-        r = intf.is_ipmc_accessible(t)
+        with driven(intf.verif_rig):
+            r = intf.is_ipmc_accessible(t)
         return b'' if r is True else ValueError('is_ipmc_accessible returned %r' % (r,))
     except Exception as e:  # noqa
         return e
@@ -333,7 +531,8 @@ def call(intf, rs_sa, routing, lun, netfn, cmd, payload, targets=None):
             targets[key] = make_target(rs_sa, routing)
         t = targets[key]
     try:
-        return bytes(intf.send_and_receive_raw(t, lun, netfn, bytes([cmd]) + bytes(payload)))
+        with driven(intf.verif_rig):
+            return bytes(intf.send_and_receive_raw(t, lun, netfn, bytes([cmd]) + bytes(payload)))
     except Exception as e:  # noqa
         return e
 
@@ -384,7 +583,8 @@ def oracle_bridged_e2e(inp, spec_peel, spec_wrap_reply, spec_reply_frame, spec_r
         script.extend(events)
         clear_sent('rmcp', intf)
         try:
-            got = bytes(intf.send_and_receive_raw(t, c['lun'], c['netfn'], bytes([c['cmd']]) + p))
+            with driven(intf.verif_rig):
+                got = bytes(intf.send_and_receive_raw(t, c['lun'], c['netfn'], bytes([c['cmd']]) + p))
         except Exception as e:  # noqa
             got = e
         sent = sent_of('rmcp', intf)
